@@ -13,7 +13,8 @@ for l in open(os.path.join(V, "mutants/index.tsv")):
         jobs.append((os.path.join(V, "mutants", m), key, props.split()))
 for d in sorted(glob.glob(os.path.join(V, "seeded", "*"))):
     meta = json.load(open(os.path.join(d, "meta.json")))
-    jobs.append((os.path.join(d, "patch.diff"), None, [meta["property"]]))
+    p2 = os.path.join(d, "patch-rebased.diff")
+    jobs.append((p2 if os.path.exists(p2) else os.path.join(d, "patch.diff"), None, [meta["property"]]))
 for patch, key, props in jobs:
     d = make_copy(patch)
     o = tempfile.mkdtemp(prefix="ssl-mut-out-")
